@@ -105,10 +105,19 @@ def build(stream: str, n: int, seed: int) -> list[Case]:
     models = vlib.run_model(lines) if lines else []
     by = dict(zip(idx, models, strict=True))
     fronts, pipes = run_front(answers, [bool(j.get("nc")) for j in jobs])
+    import frontcmp
     out = []
     for k, (i, p, files, job) in enumerate(cases):
         a = answers[k]
-        out.append(Case(i, p, files, job, a, by.get(k), fronts[k], pipes[k]))
+        fr, pi = fronts[k], pipes[k]
+        # on agreement the model's copies of the API tree, the JSON value and the files are not kept (they equal the implementation's)
+        if fr is not None and job.get("view") and frontcmp.compare(a, fr)["status"] == "agree":
+            fr = ["agree", "1" if (fr[0] == "ok" and fr[4] == "1") else "0", fr[1] if fr[0] == "err" else None]
+        if pi is not None and pi[0] == "ok" and pi[2][0] == "ok" and not a.get("exc"):
+            fm = {pp: t for pp, t in pi[2][5]}
+            if fm == {pp: t for pp, t in a.get("stubs", {}).items() if pp.endswith(".sdsstub")}:
+                pi = ["same-files", pi[1], pi[2][4]]
+        out.append(Case(i, p, files, job, a, by.get(k), fr, pi))
     implrun.cleanup()
     return out
 
@@ -138,6 +147,8 @@ def pipeline_disagreements(cases: list[Case], prop: str) -> list[dict]:
         m = c.pipe
         a = c.answer
         if m is None or not c.job.get("view") or not c.job.get("out"):
+            continue
+        if m[0] == "same-files":
             continue
         if m[0] == "bad-view":
             dis.append({"case": c.job, "what": "the pipeline model cannot read the dumped view"})
